@@ -6,7 +6,7 @@
    rcfg <last> <remoteIndex> <locals> <remotes>          one real replicateConfig round
    sacl <kind> <last> <remoteIndex> <locals> <remotes id;mod;hash;val;size;create> <overrides>
         one real round whose batch read is answered stale: override = id;mod;hash;val;size (an
-        older version) or id;- (not returned); kind policy = guarded, token = no guard
+        older version) or id;- (not returned); policies and tokens are both guarded (ensureRemoteConsistent)
    nbatch <rows id;name …> <upserts id;name …>           one upsert batch against the unique name index
 
    ACL item:    id;mod;hash;val;size      config item: kind;name;mod;hash;val
@@ -103,7 +103,7 @@ def step (_ : Unit) (toks : List String) : Unit × String :=
       let cre : Bytes → Nat := fun k => match rc.find? (fun p => p.1.id = k) with
         | some p => p.2
         | none => 0
-      let guard := kind == "policy"
+      let guard := kind == "policy" || kind == "token"
       let ops := roundOpsStale aclRnd guard ov cre last ridx l r
       let fin := finalStr ((roundFinalStale aclRnd guard ov cre last ridx l r).map fun x => (x.id, x.val))
       let ret := match roundRetStale aclRnd guard ov cre last ridx l r with
